@@ -313,7 +313,7 @@ impl Response {
                 let col_count = u32::from_le_bytes(payload[0..4].try_into().unwrap()) as usize;
                 offset += 4;
 
-                let mut columns = Vec::with_capacity(col_count);
+                let mut columns = Vec::with_capacity(col_count.min(payload.len()));
 
                 for _ in 0..col_count {
                     let (col, len) = read_string_with_len(&payload[offset..])?;
@@ -328,9 +328,9 @@ impl Response {
                     u32::from_le_bytes(payload[offset..offset + 4].try_into().unwrap()) as usize;
                 offset += 4;
 
-                let mut data = Vec::with_capacity(row_count);
+                let mut data = Vec::with_capacity(row_count.min(payload.len()));
                 for _ in 0..row_count {
-                    let mut row = Vec::with_capacity(col_count);
+                    let mut row = Vec::with_capacity(col_count.min(payload.len()));
                     for _ in 0..col_count {
                         let (value, len) = read_string_with_len(&payload[offset..])?;
                         row.push(value);
